@@ -182,7 +182,7 @@ pub const ALL_EDIT_KINDS: &[&str] = &[
     "delete_decl", "dup_decl", "swap_decls", "move_decl", "rename_export", "toggle_export",
     "retarget_import", "add_export_star", "second_default", "alias_wrap", "flip_primitive",
     "add_property", "append_type", "truncate", "drop_line", "stray_token", "unbalance", "garbage",
-    "foreign_content", "revert", "create_file", "delete_file", "touch", "shadow_file",
+    "foreign_content", "revert", "create_file", "delete_file", "touch", "shadow_file", "package_shadow",
 ];
 
 pub struct EditCtx<'a> {
@@ -270,6 +270,30 @@ pub fn apply_edit(kind: &'static str, fs: &Fs, f: &str, content: &str, rng: &mut
             // same exports, one property more: resolution decides which one is seen
             let body = content.replacen('{', "{ shadow_marker?: true; ", 1);
             one("shadow_file", &target, body)
+        }
+        "package_shadow" => {
+            // a package that is imported by a bare specifier gets a second copy that now wins the
+            // node_modules lookup (pkg.ts next to pkg/index.ts, or a nested node_modules closer to
+            // the importer), with a different definition
+            let pkgs: Vec<&String> = fs.keys().filter(|k| k.contains("/node_modules/") && k.ends_with("/index.ts")).collect();
+            if pkgs.is_empty() {
+                return None;
+            }
+            let pkg_index = (*rng.pick(&pkgs)).clone();
+            let pkg_dir = pkg_index.strip_suffix("/index.ts")?.to_string();
+            let pkg_name = pkg_dir.rsplit('/').next()?.to_string();
+            let body = fs.get(&pkg_index)?.replace("string", "number");
+            let target = if rng.chance(1, 2) {
+                format!("{}.ts", pkg_dir)
+            } else {
+                // nested node_modules next to some importing file
+                let dir = dirname(f);
+                format!("{}/node_modules/{}/index.ts", if dir == "/" { "" } else { dir }, pkg_name)
+            };
+            if fs.contains_key(&target) || target.contains("/node_modules/node_modules/") || target.matches("/node_modules/").count() > 1 && !target.ends_with(&format!("{}.ts", pkg_name)) {
+                return None;
+            }
+            one("package_shadow", &target, body)
         }
         "delete_file" => {
             if f == ctx.entry && !rng.chance(1, 8) {
